@@ -225,6 +225,74 @@ def extra_scenarios(ctx, uberjob):
                 ctx.fail("failing-consumer:inputs-kept", "the input of a consumer that failed (%s) stayed alive while the run went on" % variant,
                          {"variant": variant, "scheduler": scheduler, "max_errors": None, "max_workers": 3})
 
+    # ---- (D) a result that NO call consumes (a set-up call others merely depend on; a store write's return value) is dropped
+    # as soon as its call has finished, also when several such calls exist
+    for workers in (1, 3):
+        for scheduler in (None, "random"):
+            box = {"alive": []}
+
+            def setup(tag):
+                b = Big()
+                box[tag] = weakref.ref(b)
+                return b
+
+            def probe(tag):
+                gc.collect()
+                box["alive"] += [t for t in ("s1", "s2") if t in box and box[t]() is not None]
+                return tag
+
+            p = uberjob.Plan()
+            s1 = p.call(setup, "s1")
+            p1 = p.call(probe, "p1")
+            s2 = p.call(setup, "s2")
+            p2 = p.call(probe, "p2")
+            p.add_dependency(s1, p1)
+            p.add_dependency(p1, s2)
+            p.add_dependency(s2, p2)
+            uberjob.run(p, output=[p1, p2], max_workers=workers, scheduler=scheduler, progress=None)
+            ctx.case(("c16-unconsumed", workers, scheduler))
+            if box["alive"]:
+                ctx.fail("unconsumed:kept", "the result of a call that no call consumes (%s) was still alive when a later call ran" % sorted(set(box["alive"])),
+                         {"workers": workers, "scheduler": scheduler})
+
+    # ---- (E) when the observer is told that a call completed, the call has already let go of its inputs
+    from uberjob.progress import Progress, ProgressObserver
+    for workers in (1, 2):
+        box = {"done": False, "alive_at_completed": None}
+
+        def make5():
+            b = Big()
+            box["wr"] = weakref.ref(b)
+            return b
+
+        def consumer5(x):
+            box["done"] = True
+            return 1
+
+        class Obs(ProgressObserver):
+            def __enter__(self):
+                pass
+
+            def __exit__(self, *a):
+                pass
+
+            def increment_total(self, **k):
+                pass
+            increment_running = increment_failed = increment_total
+
+            def increment_completed(self, *, section, scope):
+                if box["done"] and box["alive_at_completed"] is None and "consumer5" in repr(scope):
+                    gc.collect()
+                    box["alive_at_completed"] = box["wr"]() is not None
+
+        p = uberjob.Plan()
+        a = p.call(make5)
+        c = p.call(consumer5, a)
+        uberjob.run(p, output=c, max_workers=workers, progress=Progress(Obs))
+        ctx.case(("c16-completed-callback", workers))
+        if box["alive_at_completed"]:
+            ctx.fail("completed-callback:kept", "a result was still alive when the observer was told that its last consumer had completed", {"workers": workers})
+
     # ---- (C) a call that merely DEPENDS on another call (add_dependency) does not keep that call's result alive
     for workers in (1, 3):
         for scheduler in (None, "random"):
